@@ -28,7 +28,8 @@ DER = CheckFn("c15-derive", "Model.ReplaceCheck", "derive_check",
               Tup(WTREE, Nat, Tup(GraphT, List(Tup(NodeT, Nat)), List(Tup(NodeT, NameT)), List(Tup(EdgeT, NameT))),
                   List(Tup(Nat, List(Nat), NN)), NN),
               imports=["Model.Replace"])
-CHECKFNS = [REPL, LIN, DER]
+START = CheckFn("c15-start", "Model.ReplaceCheck", "start_check", Tup(LabT, Nat, GraphT), imports=["Model.Replace"])
+CHECKFNS = [REPL, LIN, DER, START]
 
 ASSUMPTIONS = [
     "implicit Node/Edge ids (object addresses) are modelled by a fresh-id counter: a newly created object's id differs from the id of every object still referenced (the harness keeps every graph alive while it is compared)",
@@ -79,6 +80,13 @@ def judged_replace(ctx, g, e, repl):
     except Exception as ex:
         nm, em, status = {}, {}, exc_status(ex)
         err = ex
+    # canonical numbering of the new implicit ids by ROLE (image of which replacement node / edge),
+    # so that the comparison with the model is up to renaming of fresh ids; whatever the maps do not
+    # account for is numbered afterwards in the order of the result's dicts
+    for rn in repl.nodes():
+        if rn in nm: ctx.node(nm[rn])
+    for re_ in repl.edges():
+        if re_ in em: ctx.id(em[re_].id); ctx.keep.append(em[re_])
     wres = ctx.graph(g)
     wnm = [(ctx.node(a), ctx.node(b)) for a, b in nm.items()]
     wem = [(ctx.edge(a), ctx.edge(b)) for a, b in em.items()]
@@ -210,13 +218,16 @@ def run_linearisation(ctx, hrg, t, order, repl_cases):
         ext = set(s.rule.rhs.ext)
         for rn, gn in nm.items():
             if rn not in ext: nn[gn] = ninst(ctx, p, rn.id)
-        del en[e]
+        en.pop(e, None)
         for re_, ge in em.items(): en[ge] = ninst(ctx, p, re_.id)
         for k, c in s.children.items(): pending[p + (k.id,)] = em[k]
     return g, nn, en
 
+UNNAMED = (0, [], (0, 4999))      # a node/edge of the result that no returned map accounts for
+
 def wire_named(ctx, g, nn, en):
-    return (ctx.graph(g), [(ctx.node(n), nn[n]) for n in g.nodes()], [(ctx.edge(e), en[e]) for e in g.edges()])
+    return (ctx.graph(g), [(ctx.node(n), nn.get(n, UNNAMED)) for n in g.nodes()],
+            [(ctx.edge(e), en.get(e, UNNAMED)) for e in g.edges()])
 
 def to_fgg_deriv(fgg, spec, t):
     import fggs
@@ -285,7 +296,7 @@ def weight_table(ctx, b, spec):
 
 def tree_jsonable(t):
     return dict(rule=t.ri, asst=[v for v in t.asst.values()],
-                children={str(k.id): tree_jsonable(c) for k, c in t.children.items()})
+                children={"edge%d" % t.edges.index(k): tree_jsonable(c) for k, c in t.children.items()})
 
 def tree_shape(t):
     return (t.ri, tuple(sorted((t.edges.index(k), tree_shape(c)) for k, c in t.children.items())))
@@ -356,7 +367,10 @@ def malformed_cases(rng, n):
             g2 = fggs.Graph()
             for nd in repl.nodes(): g2.add_node(nd)
             for e2 in repl.edges(): g2.add_edge(e2)
-            g2.add_edge(fggs.Edge(lab, (ghost,)))
+            # the API (add_edge after fix 349378f) refuses such an edge; plant it directly
+            ge = fggs.Edge(lab, (ghost,))
+            g2._edges[ge.id] = ge
+            g2._edge_labels[lab.name] = lab
             g2.ext = repl.ext
             repl = g2
         out.append((kind, Ctx(), host, edge, repl, gen.spec_jsonable(spec)))
@@ -372,7 +386,8 @@ LIN_MSG = {1: "graph obtained by this order of replacements is not isomorphic (t
            3: "generated derivation tree is not well-formed (harness bug)", 10: "final graph differs from the model's run of the same linearisation",
            11: "the model's run of this linearisation fails", 12: "model's own run is not the derived graph (contradicts C15_confluence)"}
 DER_MSG = {1: "derive(): graph is not isomorphic to the derived graph (oracle same_upto_naming rejects)",
-           2: "derive(): assignment is not total or is not the derived assignment",
+           2: "derive(): assignment is not total on the nodes of the derived graph",
+           12: "derive(): assignment (read through the names) is not the denotational derived assignment",
            3: "derive(): product of factor weights differs from the product of the rule-instance weights",
            4: "generated derivation tree is not well-formed (harness bug)", 10: "derive() differs from derive_model",
            11: "derive_model raises on a well-formed derivation"}
@@ -381,9 +396,11 @@ def run(tier, seed):
     rng = random.Random(seed)
     violations, notes = [], 0
     n_trees = 200 if tier == "quick" else 3000
+    if os.environ.get("C15_TREES"): n_trees = int(os.environ["C15_TREES"])      # mutation self-tests only
     max_lin = 120
     repl_cases, lin_cases, der_cases = [], [], []
     lin_meta, der_meta = [], []
+    start_cases, start_meta = [], []
     hist_size, hist_lin, feats = {}, {}, {}
     shapes = set()
     n_exh = n_samp = reused = 0
@@ -442,13 +459,22 @@ def run(tier, seed):
                 continue
             lin_cases.append((wt, 0, [[ctx.id(x) for x in p] for p in l], wire_named(ctx, g, nn, en)))
             lin_meta.append(dict(meta, order=[list(map(str, p)) for p in l]))
+        # start_graph
+        try:
+            import fggs
+            ctx = Ctx()
+            wl = ctx.lab(b.hrg.start)
+            start_cases.append((wl, 0, ctx.graph(fggs.start_graph(b.hrg))))
+            start_meta.append(dict(spec=meta["spec"], ids=ids))
+        except Exception as ex:
+            violations.append(Violation("start_graph raised %r" % (ex,), case=meta, corr="corr:start_graph", call="fggs.start_graph(hrg)"))
         # derive()
         ctx = Ctx()
         wt = wire_tree(ctx, t)
         try:
             g, wasst, nn, en, prod = run_derive(ctx, b, spec, t)
-            der_cases.append((wt, 0, (ctx.graph(g), wasst, [(ctx.node(x), nn[x]) for x in g.nodes()],
-                                      [(ctx.edge(e), en[e]) for e in g.edges()]), weight_table(ctx, b, spec), prod))
+            wg, wnn, wen = wire_named(ctx, g, nn, en)
+            der_cases.append((wt, 0, (wg, wasst, wnn, wen), weight_table(ctx, b, spec), prod))
             der_meta.append(meta)
         except Exception as ex:
             violations.append(Violation("derive() raised %r on a well-formed derivation" % (ex,), case=meta, corr="corr:derive",
@@ -473,7 +499,13 @@ def run(tier, seed):
     rcodes, k1 = run_model(REPL, [c for c, _ in repl_cases], seed=seed, tag="c15r", coq_sample=15)
     lcodes, k2 = run_model(LIN, lin_cases, seed=seed, tag="c15l", coq_sample=8)
     dcodes, k3 = run_model(DER, der_cases, seed=seed, tag="c15d", coq_sample=8)
+    scodes, k4 = run_model(START, start_cases, seed=seed, tag="c15s", coq_sample=5)
     exact = [0, 0]
+    for c, m, code in zip(start_cases, start_meta, scodes):
+        if code == 0: continue
+        violations.append(Violation("start_graph: " + ("not a single start-labelled edge on fresh nodes (oracle start_ok rejects)" if code == 1 else "differs from start_graph_model"),
+                                    case=m, observed=c[2], oracle="start_ok" if code == 1 else None, failing_input_found=(code == 1),
+                                    corr="C15_start_graph / corr:start_graph", call="fggs.start_graph(hrg)"))
     for (c, m), code in zip(repl_cases, rcodes):
         exact[1] += 1
         if code == 0: exact[0] += 1; continue
@@ -489,10 +521,10 @@ def run(tier, seed):
         exact[1] += 1
         if code == 0: exact[0] += 1; continue
         if code == 20: notes += 1; continue
-        violations.append(Violation(DER_MSG.get(code, "code %d" % code), case=m, observed=c[2], oracle="same_upto_naming / weights" if code in (1, 2, 3) else None,
+        violations.append(Violation(DER_MSG.get(code, "code %d" % code), case=m, observed=c[2], oracle={1: "same_upto_naming", 2: "total assignment", 3: "weight product"}.get(code),
                                     failing_input_found=code in (1, 2, 3), corr="C15_derive / corr:derive", call="FGGDerivation.derive()"))
     if notes: print("NOTE C15: %d result(s) equal to the model only up to dict order" % notes)
-    cov = dict(evaluations=len(repl_cases) + len(lin_cases) + len(der_cases),
+    cov = dict(evaluations=len(repl_cases) + len(lin_cases) + len(der_cases) + len(start_cases),
                distinct_nontrivial=len({s for s in shapes if len(s[1][1]) >= 1}),
                rule="random HRGs (gen.random_spec, mostly recursive so rules are reused; explicit/implicit/mixed ids) and random derivation trees with 1..7 rule instances, "
                     "consistent random assignments, shuffled children-dict order, occasionally an unexpanded nonterminal edge; for each tree all linearisations of the replacement "
@@ -503,7 +535,7 @@ def run(tier, seed):
                replace_calls=len(repl_cases), linearisations=len(lin_cases), derive_calls=len(der_cases),
                tree_size_histogram=hist_size, linearisations_per_tree_histogram=hist_lin, grammar_features=feats,
                malformed_histogram=mal_hist, malformed_observed=mal_obs, exact_agreement="%d/%d" % tuple(exact),
-               kernel_reevaluated=k1 + k2 + k3,
+               kernel_reevaluated=k1 + k2 + k3 + k4, start_graph_calls=len(start_cases),
                open_items=OPEN_ITEMS)
     return cov, violations
 
@@ -512,8 +544,20 @@ OPEN_ITEMS = []
 def replay(path):
     import json
     r = json.load(open(path))
-    print("replay: re-run `VERIF_SEED=%s bin/check C15 %s`; case: %s" % (r.get("seed"), r.get("tier"), json.dumps(r.get("case"))[:2000]))
-    return 1
+    tier, seed = r.get("tier", "quick"), int(r.get("seed", 0))
+    # all randomness comes from Random(seed) and ids are canonically renumbered, so the run that
+    # produced the replay file is reproduced exactly; the violation reproduces iff the same
+    # verdict on the same grammar/tree/order appears again
+    cov, vs = run(tier, seed)
+    key = lambda c: json.dumps({k: c.get(k) for k in ("spec", "tree", "kind") if isinstance(c, dict)}, sort_keys=True, default=str)
+    want = key(r.get("case") or {})
+    from harness import core as _core
+    same = [v for v in vs if v.what == r.get("what") and key(_core._jsonable(v.case) if v.case else {}) == want]
+    print("replay of %s (tier %s, seed %d): %s" % (os.path.basename(path), tier, seed, r.get("what")))
+    print("  call: %s" % r.get("call"))
+    print("  expected (Coq model / oracle %s): verdict 0" % r.get("oracle"))
+    print("  observed now: %s" % ("the same violation reproduces (%d matching case(s))" % len(same) if same else "no such violation"))
+    return 1 if same else 0
 
 MANIFEST = dict(
     level="proof",
